@@ -19,9 +19,12 @@ RULE = ("class drawn from the 85 concrete kit classes and generic module/vector 
         "both cases, length 1-80, (ii) instance of the class's structure with wildcard "
         "letters optionally replaced by N/n or lower case, (iii) such an instance with "
         "one letter substituted / deleted / inserted at a drawn position, (iv) "
-        "truncation below the structure length, (v) instance of another class; all "
+        "truncation below the structure length, (v) instance of another class, (vi) "
+        "instance with one extra recognition site of the cutter inserted; all "
         "rotated. Assemblies: a vector class with 1-4 modules, each participant "
-        "independently valid / corrupted / random / of another kit. Oracle: is_valid() "
+        "independently valid / corrupted / random / of another kit / with an extra "
+        "site, record ids drawn from a pool with braces, percent signs, spaces, "
+        "quotes, non-ASCII letters and the empty id. Oracle: is_valid() "
         "returns exactly True or False and never raises; when False, overhang_start, "
         "overhang_end, target_sequence (vectors: placeholder_sequence) each raise "
         "errors.InvalidSequence; assemble returns a CircularRecord or raises a "
@@ -39,11 +42,15 @@ LEVEL_NOTE = "Trusted: the error taxonomy in moclo.errors defines 'documented Mo
 WALL_CAP = {"quick": 240, "thorough": 3000}
 
 
-def _entity(cname, word):
+ODD_IDS = ["x", "pJ{23100}", "lib{a}", "clone{", "}{", "{0}", "100%", "%s", "a b", "p\\1", "<unknown id>", "",
+           "id'with\"quotes", "\u00e9t\u00e9"]
+
+
+def _entity(cname, word, rid="x"):
     from Bio.Seq import Seq
     from moclo.record import CircularRecord
     cls = kits.resolve_class(cname)
-    return cls, cls(CircularRecord(Seq(word), id="x"))
+    return cls, cls(CircularRecord(Seq(word), id=rid, name=rid))
 
 
 def _violation(what, e):
@@ -82,19 +89,20 @@ def check(spec, ctx):
     from moclo.record import CircularRecord
     if spec["kind"] == "typing":
         ok = typing(spec["cls"], spec["word"])
-        ctx.note(spec, spec.get("style") in ("corrupt", "instance-N", "other-class"),
+        ctx.note(spec, spec.get("style") in ("corrupt", "instance-N", "other-class", "extra-site"),
                  ["style:" + spec.get("style", "?"), "valid" if ok else "invalid"])
         return
-    vcls, vent = _entity(spec["vector"][0], spec["vector"][1])
-    ments = [_entity(c, w)[1] for c, w in spec["modules"]]
+    ids = spec.get("ids") or ["x"]
+    vcls, vent = _entity(spec["vector"][0], spec["vector"][1], ids[0])
+    ments = [_entity(c, w, ids[(i + 1) % len(ids)])[1] for i, (c, w) in enumerate(spec["modules"])]
     flags = []
     for ent in [vent] + ments:
         try:
             flags.append(bool(ent.is_valid()))
         except Exception as e:  # noqa
             raise _violation("is_valid()", e)
-    with warnings.catch_warnings():
-        warnings.simplefilter("ignore")
+    with warnings.catch_warnings(record=True):
+        warnings.simplefilter("always")       # the warning message is rendered inside assemble
         try:
             res = vent.assemble(*ments)
             out = "product"
@@ -119,7 +127,8 @@ def _class_names():
 
 
 @st.composite
-def _word_for(draw, cname, styles=("random", "instance", "instance-N", "corrupt", "truncate", "other-class")):
+def _word_for(draw, cname, styles=("random", "instance", "instance-N", "corrupt", "truncate",
+                                   "other-class", "extra-site")):
     style = draw(st.sampled_from(styles))
     if style == "random":
         alpha = draw(st.sampled_from([_IUPAC_BOTH, "ACGT", "ACGTN", "acgt"]))
@@ -148,6 +157,10 @@ def _word_for(draw, cname, styles=("random", "instance", "instance-N", "corrupt"
             word = word[:i] + draw(st.sampled_from("ACGT")) + word[i:]
     elif style == "truncate":
         word = word[:draw(st.integers(1, max(1, len(word) - 1)))]
+    elif style == "extra-site":
+        g = kits.cutter_geometry(kits.resolve_class(src))
+        i = draw(st.integers(0, len(word)))
+        word = word[:i] + (g.site if draw(st.booleans()) else g.rsite) + word[i:]
     return style, word
 
 
@@ -169,14 +182,18 @@ def _assembly_specs(draw):
         e = draw(plasmid.enzyme_strategy())
         vnames, mnames = ["gen:V:" + e], ["gen:M:" + e]
     vn = draw(st.sampled_from(vnames))
-    part_styles = ("instance", "instance", "corrupt", "random", "other-class", "instance-N")
+    part_styles = ("instance", "instance", "instance", "corrupt", "random", "other-class", "instance-N",
+                   "extra-site")
     vec = [vn, draw(_word_for(vn, part_styles))[1]]
     mods = []
     for _ in range(draw(st.integers(1, 4))):
         mn = draw(st.sampled_from(mnames if draw(st.integers(0, 5)) else
                                   [n for n in names if kits.role_of(kits.resolve_class(n)) == "module"]))
         mods.append([mn, draw(_word_for(mn, part_styles))[1]])
-    return {"kind": "assembly", "vector": vec, "modules": mods}
+    spec = {"kind": "assembly", "vector": vec, "modules": mods}
+    if draw(st.booleans()):
+        spec["ids"] = draw(st.lists(st.sampled_from(ODD_IDS), min_size=1, max_size=5))
+    return spec
 
 
 def strategies(tier):
